@@ -34,7 +34,7 @@ def is_notifier(c):
 
 
 def parent_of(i):
-    return ("/", ("-", i, ("c", 1)), ("c", 2))
+    return ir.B("/", ("-", i, ("c", 1)), ("c", 2))
 
 
 def child_of(i, k):
@@ -127,7 +127,7 @@ def h1(prog, rep):
     # add
     ad = u.func("ptrheap_add")
     nt = [c for c in ad.calls() if is_notifier(c)]
-    inc = [e for e in ad.all_elems() if e.is_assign and e.op == "+=" and norm(e.kid(0))[0] == "." and norm(e.kid(0))[2] == "nelems" and norm(e.kid(1)) == ("c", 1)]
+    inc = [e for e in ad.all_elems() if ir.step(e) and ir.step(e)[0] == "+=" and ir.step(e)[1][0] == "." and ir.step(e)[1][2] == "nelems" and ir.step(e)[2] == ("c", 1)]
     ap = list(ad.calls("ptrlist_append"))
     up = list(ad.calls("heapifyup"))
     ok = len(nt) == 1 and len(inc) == 1 and len(ap) == 1 and len(up) == 1
@@ -182,7 +182,7 @@ def h4(prog, rep):
     # heapifyup: every use of (i-1)/2 is dominated by i != 0
     n = 0
     for e in up.all_elems():
-        if e.cls == "BinaryOperator" and e.op == "/" and norm(e) == parent_of(i):
+        if e.cls == "BinaryOperator" and e.op in ("/", ">>") and norm(e) == parent_of(i):
             n += 1
             ok = any(op == "!=" and L == i and R == ("c", 0) for cond, truth in up.edge_conds(e) for op, L, R, _, _ in cond_atoms(cond, truth))
             rep.check(ok, "H4-index", "heapifyup: parent index used only when i != 0", e.where, "", function="heapifyup", construct="parent-guard")
